@@ -1,7 +1,8 @@
 (* C03 — Reported best hand is a sorted five-card witness drawn from the input.
-   Statements only; proofs in Proofs/C02.v. *)
+   Statements only; proofs in Proofs/TableFacts.v (they need the slot tables to be well formed - five
+   distinct in-range indices per row - but NOT complete; completeness matters for C02 / C09 only). *)
 From CKC Require Import Base.Prelude Base.SortN Spec.Layout.
-From CKC Require Import Model.Five Proofs.C01 Proofs.C02.
+From CKC Require Import Model.Five Proofs.C01 Proofs.TableFacts.
 Open Scope N_scope.
 
 (* five-card input: whenever ranking returns, the reported hand is the input unchanged (ANY words) *)
@@ -16,7 +17,7 @@ Proof. intros chk ws H. eexists. exact (proj1 (proj2 (value_ok chk ws H))). Qed.
 Theorem C03_witness : forall chk n ws,
   (n = 6 \/ n = 7)%nat -> HandN n ws ->
   exists v h,
-    hrvh chk ws = Ok (v, h) /\ v = best_value ws /\
+    hrvh chk ws = Ok (v, h) /\ hand_rank_value chk ws = Ok v /\
     length h = 5%nat /\ NoDup h /\ incl h ws /\ noninc h /\ Forall RealCard h /\
     hrvh chk h = Ok (v, h) /\ hand_rank_value chk h = Ok v.
 Proof. exact witness_ok. Qed.
